@@ -323,6 +323,7 @@ class FracLaplSettings(BaseSettings):
         ir += 3 * self.nd1 + self.ndd
         self._size = ir
         _check_l1_dots(l1_dots, self.nk1)
+        _check_l1_dots(ld_dots, self.nd1)
 
     @property
     def npow(self):
